@@ -7,12 +7,13 @@ use spec::Dec;
 /// scale-gap alphabet G: every gap to 45; both sides of the `<20` u64 path, of 19-digit chunk
 /// multiples, of the 590 and 9440 power-of-ten algorithm switches
 pub fn gaps() -> Vec<u64> {
-    let mut g: Vec<u64> = (0..=45).collect();
-    g.extend([56, 57, 58, 75, 76, 77, 94, 95, 96]);
+    // every gap to 300 (covers u8 wrap-around 255..276 of a narrowed gap), then the decision constants
+    let mut g: Vec<u64> = (0..=300).collect();
+    g.extend([511, 512, 513, 530, 531, 532]);
     g.extend(585..=610);
-    g.extend([1000, 1024, 1179, 1180, 1181, 4096, 5000]);
+    g.extend([1000, 1023, 1024, 1025, 1179, 1180, 1181, 4096, 5000]);
     g.extend(9435..=9445);
-    g.extend([9999, 10000]);
+    g.extend([9999, 10000, 65535, 65536, 65537, 65555, 65556]);
     g
 }
 
